@@ -241,7 +241,9 @@ func (s *State) refClosure(hp *Heap, key, addr string, inner ...string) {
 		for _, i := range inner {
 			t = sel(t, i)
 		}
-		s.assume(and(app("<=", "0", t), app("<", t, bound)))
+		// only for objects that existed when that heap version was current: cells
+		// at later addresses hold what callees put into freshly allocated objects
+		s.assume(imp(app("<", addr, bound), and(app("<=", "0", t), app("<", t, bound))))
 	}
 	sym := "H0_" + sanitize(key)
 	s.x.declare(sym, s.x.heapSort(key))
